@@ -82,11 +82,6 @@ Goal Proofs.C11Link.c11_refutes "C11-generic-param-shadow"
     [w_struct "A" ["T"] [w_s "T"; w_s "B"]; w_struct "B" [] []; w_struct "T" [] [RGeneric (lit "A") [RPrim PU8]]].
 Proof. exact Props.C11.C11_generic_param_shadow_refuted. Qed.
 Print Assumptions Props.C11.C11_generic_param_shadow_refuted.
-Goal Proofs.C11Link.c11_refutes "C11-special-id-collision"
-    [w_struct "A" [] [RGeneric (lit "G") [RVec (RPrim PU8)]; w_s "B"]; w_struct "B" [] [];
-     w_struct "G" ["T"] [w_s "T"]; w_struct "Vec" [] [w_s "A"]].
-Proof. exact Props.C11.C11_special_id_collision_refuted. Qed.
-Print Assumptions Props.C11.C11_special_id_collision_refuted.
 Goal Proofs.C11Link.c11_refutes "C11-alias-generic-shadow"
     [w_alias "A" ["T"] (RVec (w_s "T")); w_struct "T" [] [RGeneric (lit "A") [RPrim PU8]]].
 Proof. exact Props.C11.C11_alias_generic_shadow_refuted. Qed.
@@ -106,14 +101,41 @@ Goal Proofs.C11Link.c11_pinned_ok
      w_struct "C" [] []].
 Proof. exact Props.C11.C11_enum_chain_fixed. Qed.
 Print Assumptions Props.C11.C11_enum_chain_fixed.
-Goal Proofs.C11Link.c11_refutes "C11-generic-arg-depth"
-    [w_struct "A" [] [RGeneric (lit "Unknown") [w_s "B"]]; w_struct "B" [] []].
-Proof. exact Props.C11.C11_generic_arg_depth_refuted. Qed.
-Print Assumptions Props.C11.C11_generic_arg_depth_refuted.
-Goal Proofs.C11Link.c11_refutes "C11-generic-arg-depth"
-    [w_struct "Foo" ["T"] [RGeneric (lit "Foo") [w_s "Zed"]]; w_struct "Zed" [] []].
-Proof. exact Props.C11.C11_generic_arg_depth_own_name_refuted. Qed.
-Print Assumptions Props.C11.C11_generic_arg_depth_own_name_refuted.
+Goal Proofs.C11Link.c11_pinned_as
+    [w_struct "A" [] [RGeneric (lit "Unknown") [w_s "B"]]; w_struct "B" [] []] ["B"; "A"].
+Proof. exact Props.C11.C11_generic_arg_depth_fixed. Qed.
+Print Assumptions Props.C11.C11_generic_arg_depth_fixed.
+Goal Proofs.C11Link.c11_pinned_as
+    [w_struct "Foo" ["T"] [RGeneric (lit "Foo") [w_s "Zed"]]; w_struct "Zed" [] []] ["Zed"; "Foo"].
+Proof. exact Props.C11.C11_generic_arg_depth_own_name_fixed. Qed.
+Print Assumptions Props.C11.C11_generic_arg_depth_own_name_fixed.
+Goal Proofs.C11Link.c11_pinned_as
+    [w_struct "A" [] [RGeneric (lit "G") [RVec (w_s "B")];
+                      ROption (RGeneric (lit "G") [RGeneric (lit "G") [RHashMap (RPrim PString) (w_s "C")]])];
+     w_struct "B" [] []; w_struct "C" [] []; w_struct "G" ["T"] [w_s "T"]]
+    ["G"; "B"; "C"; "A"].
+Proof. exact Props.C11.C11_generic_arg_depth_nested_fixed. Qed.
+Print Assumptions Props.C11.C11_generic_arg_depth_nested_fixed.
+Goal Proofs.C11Link.c11_pinned_as
+    [w_struct "A" [] [RGeneric (lit "G") [RVec (RPrim PU8)]; w_s "B"]; w_struct "B" [] [];
+     w_struct "G" ["T"] [w_s "T"]; w_struct "Vec" [] [w_s "A"]]
+    ["G"; "B"; "A"; "Vec"].
+Proof. exact Props.C11.C11_special_id_collision_fixed. Qed.
+Print Assumptions Props.C11.C11_special_id_collision_fixed.
+Goal forall a b : ritem, edge_visible a b = true -> same_item a b = false -> refers a b = false ->
+    mem_str (original (item_id b)) (item_generics a) = true.
+Proof. exact Props.C11.C11_phantom_edge_is_param_shadow. Qed.
+Print Assumptions Props.C11.C11_phantom_edge_is_param_shadow.
+Goal forall a b : ritem, refers a b = true -> edge_visible a b = false ->
+    mem_str (original (item_id b)) (mentions a) = true ->
+    exists sh, a = ItEnum (EUnit sh) /\ flat_map variant_types (evariants sh) <> [].
+Proof. exact Props.C11.C11_unrecorded_original_reference_is_unit_enum. Qed.
+Print Assumptions Props.C11.C11_unrecorded_original_reference_is_unit_enum.
+Goal Proofs.C11Link.c11_refutes "C11-unit-enum-payload"
+    [ItEnum (EUnit {| eid := Proofs.C11Link.w_id "U"; egenerics := []; ecomments := []; evariants := [VTuple (w_s "B") w_vsh];
+                      edecs := []; erecursive := false; eredacted := false |}); w_struct "B" [] []].
+Proof. exact Props.C11.C11_unit_enum_payload_outside_domain. Qed.
+Print Assumptions Props.C11.C11_unit_enum_payload_outside_domain.
 Goal Proofs.C11Link.c11_refutes "C11-renamed"
     [w_alias "A" [] (RVec (w_s "SR"));
      ItStruct {| sid := {| original := lit "S"; renamed := lit "SR"; via_serde_rename := true |}; sgenerics := [];
